@@ -26,12 +26,13 @@ Contracts (deal, on sidecar wrappers):
 * ``reload_bijection(bij)``: the reloaded bijection's ``map`` / ``inverse_map`` agree with the original's on all
   objects of size <= 5.
 
-Family: the searches of C07 / C12 plus the packs of ``LOCAL_PACKS``: ``dependent`` (``VerifiedThroughLonger``: a
+Family: the searches of C07 / C12 plus the packs of ``LOCAL_PACKS``: ``dependent`` (``VerifiedThroughFactor``: a
 verification rule WITH a child, the documented way of marking a dependency -- the children of such a rule are not stored
 in its JSON and must come back through the strategy), ``quotient-stat`` (reverse product rules whose factors use local
 statistic names), ``rename`` (equivalence paths through renamed statistics), ``localnames`` / ``restmiddle``
-(``SplitPrefix`` products, ``ExpansionDropVanishing`` unions).  The rule-database flavour ``forest`` is not used with
-``dependent``: it raises RuntimeError / AssertionError on such universes (reported separately, not a C18 matter).
+(``SplitPrefix`` products, ``ExpansionDropVanishing`` unions).  (When the start class itself is verified through a
+dependency that nothing specifies, the forest database raises RuntimeError where the others answer "no specification";
+searches that raise are skipped here -- reported separately, not a C18 matter.)
 """
 import copy
 import json
@@ -85,8 +86,8 @@ def _local_pack(name, initial, inferral, expansion, ver):
 
 
 LOCAL_PACKS = {
-    "dependent": lambda: _local_pack("dependent", [], [], [[ExpansionStrategy(), RemoveFrontOfPrefix()]],
-                                     [StatAtomStrategy(), VerifiedThroughLonger()]),
+    "dependent": lambda: _local_pack("dependent", [RemoveFrontOfPrefix()], [], [[ExpansionStrategy()]],
+                                     [StatAtomStrategy(), VerifiedThroughFactor()]),
     "quotient-stat": lambda: _local_pack("quotient-stat", [], [], [[PrependStatFactory()]],
                                          [StatAtomStrategy(), LongPrefixVerified(k=2)]),
     "rename": lambda: _local_pack("rename", [RemoveFrontOfPrefix()],
@@ -97,7 +98,7 @@ LOCAL_PACKS = {
     "restmiddle": lambda: _local_pack("restmiddle", [SplitPrefix(pieces=2, rest_at=1), SplitPrefix(pieces=1, rest_at=0)],
                                       [], [[ExpansionStrategy()]], [StatAtomStrategy()]),
 }
-NO_FOREST_PACKS = ("dependent",)
+NO_FOREST_PACKS = ()
 C18_PACKS = dict(C12_PACKS)
 C18_PACKS.update(LOCAL_PACKS)
 LOCAL_STARTS = [("b", ["bb"], "ab", ()), ("a", ["ab"], "ab", ()), ("b", ["ba"], "ab", ("nb",)),
@@ -280,7 +281,7 @@ def strategy_list():
         CoreFactory(), LookAheadRuleFactory(), LookBackRuleFactory(),
         SplitPrefix(), SplitPrefix(pieces=2, rest_at=5, local_names=True), SplitPrefix(ignore_parent=False, rest_at=1),
         RenameStats(), OneWaySwap(), OneWaySwap(workable=True), StepRemoveRedundantPatterns(), ExpansionDropVanishing(),
-        ExpansionDropVanishing(merge=True), VerifiedThroughLonger(), VerifiedThroughLonger(ignore_parent=True),
+        ExpansionDropVanishing(merge=True), VerifiedThroughFactor(), VerifiedThroughFactor(ignore_parent=True),
         PrependStatFactory(), PrependRuleFactory(),
     ]
     out, seen = [], set()
